@@ -19,11 +19,25 @@
                                                              count; L = 0: none of them); the last token is the final piece:
                                                              digest;bitcnt after every non-final token (after `init` too)
   blake2seq.h <b|s> <tok> … <tok>                            the same for Blake2 (its update takes no bit length)
+  blakeseqs <cls0>,<cls1>,… | <k> <step> | env <name> | …    SEVERAL objects in one line, each with a whole life; cls = 224|256|384|512
+                                                             (Blake(n)), b|s (Blake2(512|256)), @224 … @s (the module singletons);
+                                                             steps on object k:  new  (construct; no initstate yet)
+                                                               init [salt=<n>]                       h.initstate(…)   BLAKE
+                                                               init [outlen=<n>] [salt=<hex>] [pers=<hex>] [fanout=…] …   BLAKE2
+                                                               upd <hex> [L] / fin <hex> [L]         update(…[,bitlen=L][,padding=True])
+                                                               call <hex> [s=<n>] [bitlen=<L>]       h(M,…)            BLAKE
+                                                               call <hex> [outlen=<n>] [salt=…] …    h(M,…)            BLAKE2
+                                                             `env <name>`: library activity on none of the objects.  Printed per step:
+                                                             `-` (new, env), `c<bitcnt>` (init, upd), the digest (fin, call), ERR.
+                                                             A keyword that is not given is NOT passed (`init` = h.initstate(): the
+                                                             defaults of the method apply, whatever the object did before).
+                                                             spec = every object's stream answered from its own steps since its last init
 -/
 import Driver.Wire
 import Model.Blake
 import Spec.Blake
 import Spec.Blake2
+import Model.Multi
 namespace Driver.BlakeD
 open Model Driver
 
@@ -178,6 +192,198 @@ def b2SeqTrace (c : Blake.Cfg) (pieces : List (List Nat)) : Except Err (List Nat
       | .ok _ => go s' (acc ++ tr) rest
   go s0 [] pieces
 
+/-! ### several objects, whole lives (`blakeseqs`) -/
+
+def splitBar (toks : List String) : List (List String) :=
+  let rec go : List String → List String → List (List String) → List (List String)
+    | [], cur, acc => (cur.reverse :: acc).reverse
+    | "|" :: ts, cur, acc => go ts [] (cur.reverse :: acc)
+    | t :: ts, cur, acc => go ts (t :: cur) acc
+  go toks [] []
+
+/-- the class of an object of the line -/
+inductive Cls
+  | b1 (n : Nat) (c : Blake.Cfg)
+  | b2 (c : Blake.Cfg) (V : Spec.Blake2.Variant)
+
+def parseCls? (s : String) : Option Cls :=
+  let s := if s.startsWith "@" then (s.drop 1).toString else s     -- a module singleton is an object of its class
+  match b2cfg? s with
+  | some (c, V) => some (.b2 c V)
+  | none => do
+    let n ← parseNat? s
+    match Blake.mk? n with
+    | .ok c => some (.b1 n c)
+    | .error _ => none
+
+abbrev KV := List (String × String)
+
+def parseKV? (toks : List String) : Option KV :=
+  toks.mapM fun t => match t.splitOn "=" with
+    | [k, v] => some (k, v)
+    | _ => none
+
+inductive BOp
+  | new
+  | env
+  | init (kv : KV)
+  | upd (m : List Nat) (l : Option Nat)
+  | fin (m : List Nat) (l : Option Nat)
+  | call (m : List Nat) (kv : KV)
+
+def parseBOp? : List String → Option BOp
+  | ["new"] => some .new
+  | "init" :: kv => (parseKV? kv).map .init
+  | ["upd", x] => (parseBytes? x).map (.upd · none)
+  | ["upd", x, l] => do let x ← parseBytes? x; let l ← parseNat? l; pure (.upd x (some l))
+  | ["fin", x] => (parseBytes? x).map (.fin · none)
+  | ["fin", x, l] => do let x ← parseBytes? x; let l ← parseNat? l; pure (.fin x (some l))
+  | "call" :: x :: kv => do let x ← parseBytes? x; let kv ← parseKV? kv; pure (.call x kv)
+  | _ => none
+
+def parseBStep? (nobj : Nat) : List String → Option (Nat × BOp)
+  | ["env", _] => some (nobj, .env)
+  | k :: rest => do
+      let k ← parseNat? k; let o ← parseBOp? rest
+      if k < nobj then pure (k, o) else none
+  | _ => none
+
+def kvNat (kv : KV) (k : String) : Option (Option Nat) :=
+  match kv.lookup k with
+  | none => some none
+  | some v => (parseNat? v).map some
+
+def kvBytes (kv : KV) (k : String) : Option (List Nat) :=
+  match kv.lookup k with
+  | none => some []
+  | some v => parseBytes? v
+
+/-- keywords of a BLAKE `initstate` (salt) / `__call__` (s, bitlen): (salt, bitlen); an absent keyword is the method's
+    default — salt 0, no bit length — whatever the object was used with before -/
+def b1Args (kv : KV) (saltKey : String) : Option (Nat × Option Nat) := do
+  let s ← kvNat kv saltKey; let l ← kvNat kv "bitlen"
+  if kv.all (fun (k, _) => k = saltKey || k = "bitlen") then pure (s.getD 0, l) else none
+
+/-- keywords of a BLAKE2 `initstate` / `__call__` -/
+def b2Args (kv : KV) : Option Blake2.Params := do
+  let outlen ← kvNat kv "outlen"; let salt ← kvBytes kv "salt"; let pers ← kvBytes kv "pers"
+  let fanout ← kvNat kv "fanout"; let depth ← kvNat kv "depth"; let leafl ← kvNat kv "leafl"
+  let noffset ← kvNat kv "noffset"; let ndepth ← kvNat kv "ndepth"; let inner ← kvNat kv "inner"
+  if kv.all (fun (k, _) => ["outlen", "salt", "pers", "fanout", "depth", "leafl", "noffset", "ndepth", "inner"].contains k) then
+    pure { outlen, salt, pers, fanout := fanout.getD 1, depth := depth.getD 1, leafl := leafl.getD 0,
+           noffset := noffset.getD 0, ndepth := ndepth.getD 0, inner := inner.getD 0 }
+  else none
+
+/-- the mutable part of an object of the line: nothing before its first initstate / call -/
+inductive Slot
+  | none
+  | s1 (s : Blake.State)
+  | s2 (s : Blake2.State)
+
+def fmtCnt (bitcnt : Nat) : Except Err (List Nat) → String
+  | .ok _ => s!"c{bitcnt}"
+  | .error _ => "ERR"
+
+/-- one step on the model object in slot k.  The slot of `env` has no class: library activity on other objects touches no
+    slot (the objects are values).  A refused `initstate` / call of BLAKE2 (digest length out of range) leaves the Python
+    object half-initialised; the lines re-initialise such an object before its next use, the model keeps the old value. -/
+def stepSlot (clss : List Cls) (k : Nat) (o : Slot) (op : BOp) : Slot × String :=
+  match clss[k]?, op with
+  | _, .env => (o, "-")
+  | none, _ => (o, "?")
+  | some _, .new => (.none, "-")
+  | some (.b1 _ c), .init kv =>
+    match b1Args kv "salt" with
+    | some (salt, none) => let s := Blake.initstate c salt; (.s1 s, s!"c{s.pad.bitcnt}")
+    | _ => (o, "ERR")                                        -- initstate has no other keyword: TypeError
+  | some (.b1 _ c), .upd m l =>
+    match o with
+    | .s1 s => let (s', r) := Blake.update c s m l false; (.s1 s', fmtCnt s'.pad.bitcnt r)
+    | _ => (o, "ERR")                                        -- AttributeError: no padmethod before initstate
+  | some (.b1 _ c), .fin m l =>
+    match o with
+    | .s1 s => let (s', r) := Blake.update c s m l true; (.s1 s', fmtE fmtBytes r)
+    | _ => (o, "ERR")
+  | some (.b1 _ c), .call m kv =>
+    match b1Args kv "s" with
+    | some (salt, l) => let (s', r) := Blake.update c (Blake.initstate c salt) m l true; (.s1 s', fmtE fmtBytes r)
+    | none => (o, "ERR")
+  | some (.b2 c _), .init kv =>
+    match (b2Args kv).map (Blake2.initstate c) with
+    | some (.ok s) => (.s2 s, s!"c{s.pad.bitcnt}")
+    | _ => (o, "ERR")
+  | some (.b2 _ _), .upd _ (some _) => (o, "ERR")            -- TypeError: Blake2.update takes no bitlen
+  | some (.b2 _ _), .fin _ (some _) => (o, "ERR")
+  | some (.b2 c _), .upd m none =>
+    match o with
+    | .s2 s => let (s', r) := Blake2.update c s m false; (.s2 s', fmtCnt s'.pad.bitcnt r)
+    | _ => (o, "ERR")
+  | some (.b2 c _), .fin m none =>
+    match o with
+    | .s2 s => let (s', r) := Blake2.update c s m true; (.s2 s', fmtE fmtBytes r)
+    | _ => (o, "ERR")
+  | some (.b2 c _), .call m kv =>
+    match (b2Args kv).map (Blake2.initstate c) with
+    | some (.ok s) => let (s', r) := Blake2.update c s m true; (.s2 s', fmtE fmtBytes r)
+    | _ => (o, "ERR")
+
+/-- what the standard knows of an object: the message hashed since its last `init` and the parameters of that `init` -/
+inductive SSlot
+  | dead
+  | l1 (msg : List Nat) (bits : Nat) (salt : Nat)
+  | l2 (msg : List Nat) (bits : Nat) (p : Blake2.Params)
+
+/-- the spec side of one step (`none`: the property says nothing — a step on a stream that is not open, BLAKE2's empty
+    final piece after data (known finding)).  `init` opens a stream with the keywords given THERE and the defaults for
+    the others; nothing of the earlier life of the object enters. -/
+def specSlot (clss : List Cls) (k : Nat) (o : SSlot) (op : BOp) : SSlot × Option String :=
+  match clss[k]?, op with
+  | _, .env => (o, some "-")
+  | none, _ => (o, none)
+  | some _, .new => (.dead, some "-")
+  | some (.b1 _ _), .init kv =>
+    match b1Args kv "salt" with
+    | some (salt, none) => (.l1 [] 0 salt, some "c0")
+    | _ => (.dead, some "ERR")
+  | some (.b1 n _), .upd m l =>
+    match o, Spec.Blake.variant? n with
+    | .l1 msg bits salt, some V =>
+      let L := l.getD (8 * m.length)
+      if L > 8 * m.length ∨ L % V.block ≠ 0 then (.dead, some "ERR")
+      else (.l1 (msg ++ m.take (L / 8)) (bits + L) salt, some s!"c{bits + L}")
+    | _, _ => (.dead, none)
+  | some (.b1 n _), .fin m l =>
+    match o, Spec.Blake.variant? n with
+    | .l1 msg bits salt, some V =>
+      let L := l.getD (8 * m.length)
+      if L > 8 * m.length then (.dead, some "ERR")
+      else (.dead, some (fmtBytes (Spec.Blake.hash V (msg ++ m.take ((L + 7) / 8)) (bits + L) salt)))
+    | _, _ => (.dead, none)
+  | some (.b1 n _), .call m kv =>
+    match b1Args kv "s" with
+    | some (salt, l) => (.dead, some (specBlake n 0 m l salt))
+    | none => (.dead, some "ERR")
+  | some (.b2 _ V), .init kv =>
+    match b2Args kv with
+    | some p => if specB2 V p 0 [] = "ERR" then (.dead, some "ERR") else (.l2 [] 0 p, some "c0")
+    | none => (.dead, some "ERR")
+  | some (.b2 _ _), .upd _ (some _) => (.dead, some "ERR")
+  | some (.b2 _ _), .fin _ (some _) => (.dead, some "ERR")
+  | some (.b2 _ V), .upd m none =>
+    match o with
+    | .l2 msg bits p =>
+      if m.length % V.bb ≠ 0 then (.dead, some "ERR")
+      else (.l2 (msg ++ m) (bits + 8 * m.length) p, some s!"c{bits + 8 * m.length}")
+    | _ => (.dead, none)
+  | some (.b2 _ V), .fin m none =>
+    match o with
+    | .l2 msg _ p => if m.isEmpty ∧ !msg.isEmpty then (.dead, none) else (.dead, some (specB2 V p 0 (msg ++ m)))
+    | _ => (.dead, none)
+  | some (.b2 _ V), .call m kv =>
+    match b2Args kv with
+    | some p => (.dead, some (specB2 V p 0 m))
+    | none => (.dead, some "ERR")
+
 def handle : Handler := fun op args =>
   match op, args with
   | "blake", [n, salt, msg, bl] => do
@@ -256,6 +462,12 @@ def handle : Handler := fun op args =>
           | none => "ERR"
           | some (M, L, cnts) => fmtSeq (Spec.Blake.hash V M L salt, cnts)
       pure (m, sp)
+  | "blakeseqs", cs :: "|" :: rest => do
+      let clss ← (cs.splitOn ",").mapM parseCls?
+      let steps ← (splitBar rest).mapM (parseBStep? clss.length)
+      let m := (Model.Multi.run (stepSlot clss) (List.replicate (clss.length + 1) Slot.none) steps).2.map (·.2)
+      let sp := (Model.Multi.run (specSlot clss) (List.replicate (clss.length + 1) SSlot.dead) steps).2.map (·.2)
+      pure (";".intercalate m, match sp.mapM id with | some l => ";".intercalate l | none => "-")
   | "blake2seq.h", v :: toks => do
       let (c, V) ← b2cfg? v
       let toks ← parseAll parseTok? toks
